@@ -17,6 +17,11 @@ def run(chk, tier):
     import ghaz
     ghaz.check_presence_rules(chk)      # what get_actual_presence may yield per kind of encoding
     e4.check(chk, ("visit", "cursor"), tier)
+    # visiting a set: every choice, through its own getter and with its own tag, in declaration order
+    import schemas
+    import spec_set
+    root_, _ = schemas.generate_all()
+    spec_set.check(chk, lib_for("vprims_le"), root_)
     for name in (["vlayout", "vprims_le"] + (["vheaders", "test_schema", "vnames"] if tier == "thorough" else [])):
         spec_visit.check(chk, lib_for(name))
     n = chk.rule_counts.get("E4.visit", 0)
